@@ -3,8 +3,6 @@ package main
 import (
 	"bytes"
 	"crypto/ecdsa"
-	"crypto/elliptic"
-	"crypto/rand"
 	"crypto/rsa"
 	"encoding/hex"
 	"encoding/json"
@@ -56,19 +54,24 @@ func rep(pattern []byte, n int) []byte {
 
 var (
 	symKey16 = []byte("0123456789abcdef")
+	symKey24 = []byte("0123456789abcdef01234567")
 	symKey32 = []byte("0123456789abcdef0123456789abcdef")
+	symKey48 = []byte("0123456789abcdef0123456789abcdef0123456789abcdef")
+	symKey64 = []byte("0123456789abcdef0123456789abcdef0123456789abcdef0123456789abcdef")
 	rsaKey   *rsa.PrivateKey
 	ecKey    *ecdsa.PrivateKey
 	ecKey384 *ecdsa.PrivateKey
 	ecKey521 *ecdsa.PrivateKey
 )
 
+// keys installs the fixed test keys (jose_keys.go): every run, shard and replay uses the same keys, so a stored input
+// that was built for them replays identically.
 func keys() {
 	if rsaKey == nil {
-		rsaKey, _ = rsa.GenerateKey(rand.Reader, 2048)
-		ecKey, _ = ecdsa.GenerateKey(elliptic.P256(), rand.Reader)
-		ecKey384, _ = ecdsa.GenerateKey(elliptic.P384(), rand.Reader)
-		ecKey521, _ = ecdsa.GenerateKey(elliptic.P521(), rand.Reader)
+		rsaKey = fixedRSA()
+		ecKey = fixedEC(256, "c07 recipient P-256")
+		ecKey384 = fixedEC(384, "c07 recipient P-384")
+		ecKey521 = fixedEC(521, "c07 recipient P-521")
 	}
 }
 
@@ -576,8 +579,11 @@ func targets(c *hl.Ctx) []target {
 		if err != nil {
 			return
 		}
+		joseParsed = true
 		for _, k := range []interface{}{symKey32, &rsaKey.PublicKey, &ecKey.PublicKey, &ecKey384.PublicKey, &ecKey521.PublicKey} {
-			o.Verify(k)
+			if _, err := o.Verify(k); err == nil {
+				joseAccepted = true
+			}
 		}
 		o.FullSerialize()
 		o.CompactSerialize()
@@ -588,8 +594,11 @@ func targets(c *hl.Ctx) []target {
 			return
 		}
 		// every key kind, incl. EC keys on each curve (an epk on another curve than the key must be an error)
-		for _, k := range []interface{}{symKey16, symKey32, rsaKey, ecKey, ecKey384, ecKey521} {
-			o.Decrypt(k)
+		joseParsed = true
+		for _, k := range []interface{}{symKey16, symKey24, symKey32, symKey48, symKey64, rsaKey, ecKey, ecKey384, ecKey521} {
+			if _, err := o.Decrypt(k); err == nil {
+				joseAccepted = true
+			}
 		}
 		o.GetAuthData()
 		o.FullSerialize()
@@ -630,7 +639,7 @@ func targets(c *hl.Ctx) []target {
 		c, _ := o.CompactSerialize()
 		return []byte(c)
 	}
-	ts = append(ts, target{name: "jose.ParseSigned+Verify", small: 2, run: jwsVerify, seeds: func() [][]byte {
+	ts = append(ts, target{name: "jose.ParseSigned+Verify", small: 2, run: jwsVerify, families: []family{jwsFamily()}, seeds: func() [][]byte {
 		s := [][]byte{
 			signed(jose.HS256, symKey32, false), signed(jose.HS256, symKey32, true),
 			signed(jose.RS256, rsaKey, false), signed(jose.PS256, rsaKey, true),
@@ -654,7 +663,7 @@ func targets(c *hl.Ctx) []target {
 			return []byte(`{"payload":"QQ","signatures":[` + strings.TrimSuffix(strings.Repeat(`{"protected":"eyJhbGciOiJIUzI1NiJ9","signature":"c2ln"},`, n/56+1), ",") + `]}`)
 		}},
 	}})
-	ts = append(ts, target{name: "jose.ParseEncrypted+Decrypt", small: 2, run: jweDecrypt, seeds: func() [][]byte {
+	ts = append(ts, target{name: "jose.ParseEncrypted+Decrypt", small: 2, run: jweDecrypt, families: []family{jweFamily()}, seeds: func() [][]byte {
 		s := [][]byte{
 			encrypted(jose.DIRECT, jose.A128GCM, symKey16, false, nil),
 			encrypted(jose.DIRECT, jose.A128CBC_HS256, symKey32, true, []byte("aad")),
